@@ -45,6 +45,21 @@ THEOREMS += ["PyOak.C17." + t for t in [
     "compilePattern_no_runtime", "compilePattern_trichotomy", "parseXPath_nonempty", "xwalk_no_indexError",
     "parseXPath_none_cause", "xpath_unknown_class_rejected",
 ]]
+# Props/C17PatternSound.lean, C17XPathSound.lean, C17Legacy.lean: parser SOUNDNESS (accepted text IS a sentence of the
+# grammar and the tree / element list returned is that sentence's), hence accepted <=> rendering, unambiguity, and the exact
+# three-way classification of arbitrary pattern text; the same for the xpath grammar (any digit string, any number of empty
+# steps, relative texts) with the documented reading `denote`; the legacy constructor accepts the same texts
+THEOREMS += ["PyOak.C17." + t for t in [
+    "parse_sound", "parse_complete", "parsePattern_iff", "parsePattern_none_iff", "renders_unique", "render_inj_strip",
+    "compilePattern_ok_iff", "compilePattern_ok_matcher", "compilePattern_syntax_iff", "compilePattern_interp_iff",
+    "compilePattern_decides", "renders_same_compile", "parseTree_sound",
+    "xlex_sound", "parseStepBody_eq", "parseStepBody_sound", "parseSteps_sound", "xwalk_denote",
+    "xparse_sound", "xparse_complete", "parseXPath_iff", "parseXPath_none_iff", "parseXPath_accepts_iff",
+    "xrenders_unique", "pathText_unique", "pathToks_inj", "xrenders_relative", "xrenders_nonempty", "denoteFrom_empty", "denoteFrom_step",
+    "digitsVal_snoc", "digitsVal_leading_zeros", "digits_canonical", "digitsVal_eq_iff", "idxVal_padded",
+    "lparseSteps_sound", "lparseSteps_path", "lparse_sound", "lparse_complete", "lparse_accepts_iff",
+    "legacy_accepts_iff_successor", "legacy_and_successor_same_path",
+]]
 PARTIAL = ["totality of the *Python* entry points (no other exception escapes, validate_pattern / from_pattern / "
            "MultiPatternMatcher agree, a second compilation behaves the same) is a fact about Python exception flow and "
            "caches: decided by the correspondence; the theorem compile_total is about the model's total functions"]
